@@ -4,26 +4,42 @@
    arbitrary permutation" ([enumerate l pi]); the permutation is universally quantified in the
    theorems and measured (forced) in the correspondence check.
 
-   Mirrors, as they are:
+   Mirrors, as they are (after the repairs 80d6c91, c3c7c8e, the toposort repair and the
+   "Uses" repair):
      ford/fortran_project.py  find_all_files (returns a set of paths), Project.__init__ (iterates
-                              sorted(that set) since 80d6c91; every project-level list is therefore
-                              in the sorted order of the absolute paths), Project.correlate (toposort_flatten over sets of module
-                              objects, the ranklist / prune loops), Project.markdown
+                              sorted(that set): every project-level list is in the sorted order
+                              of the absolute paths), Project.correlate (the loop that asks for
+                              the identifiers of modules and submodules in list order, then
+                              toposort_flatten over sets of module objects, the ranklist / prune
+                              loops), Project.markdown
      ford/sourceform.py       FortranBase.ident -> NameSelector.get_name (Out/Names.v): first
                               come, first served numbering "name", "name~2", ...;
                               FortranCodeUnit.correlate: self.uses = set(objects hashed by id)
-     ford/output.py           Documentation.__init__ (page objects list by list; the search
+     ford/output.py           sort_by_name (the "Uses" list is rendered through it),
+                              Documentation.__init__ (page objects list by list; the search
                               index renders every page), Documentation.writeout (remove the
                               output directory, then write)
      ford/graphs.py           add_to_graph: "for n in sorted(nodes)"; InheritedByGraph.add_node:
-                              "for c in sorted(node.children)" since c3c7c8e
+                              "for c in sorted(node.children)"
 
-   A run is a sequence of phases.  A [ByFile k] phase is a loop over something that is in file
-   enumeration order; what one file contributes to it (its k-th segment: the get_name requests
-   issued on behalf of that file's entities, in order) does not depend on the other files.  A
-   [BySet k] phase is a loop whose order comes from a set of objects hashed by id (or from
-   sorting by identifiers that are being assigned at that very moment): its requests come in an
-   arbitrary order.
+   A run is a sequence of phases.
+   [PFile k]  a loop over something that is in file enumeration order; what one file contributes
+              (its k-th segment: the get_name requests issued on behalf of that file's entities,
+              in order) does not depend on the other files.
+   [PIdSet k] a loop whose order comes from a set of objects hashed by id(): its requests come in
+              an arbitrary order (sigma).  In the repaired code such a loop only ever asks for
+              entities whose identifier an earlier by-file loop has already requested: the model
+              draws its requests from those (a selection of entity ids), so this holds by
+              construction and is checked against every traced run.
+   [PFixed k] a loop whose order is computed from data that is already fixed (the rank order:
+              toposort levels sorted by the — by now assigned — identifiers; list pages sorted by
+              name): a sequence of requests that is part of the project — up to the order among
+              requests for DIFFERENT (directory, name) keys: inside one container the derived
+              types are compared while a set of them is sorted, and the types of one scope have
+              different names ([key_equiv]).
+
+   The pipelines before the repairs ([BySet]: a set-ordered loop that may ask for anything) are
+   kept at the end only to state what the repairs repaired.
 
    Executable definitions only; proofs are in Out/ProjectProofs.v. *)
 From Coq Require Import Permutation.
@@ -43,23 +59,25 @@ Definition is_permb (pi : list nat) (n : nat) : bool :=
 (* ------------------------------------------------------------------ the project *)
 
 Record pfile := {
-  f_path : list str;               (* path components; sort key of the repair candidate *)
-  f_segs : list (list req)         (* k-th segment: requests of this file in the ByFile k phase *)
+  f_path : list str;               (* path components: the sort key of Project.__init__ *)
+  f_segs : list (list req)         (* k-th segment: requests of this file in the PFile k phase *)
 }.
 
 Record project := {
   p_files : list pfile;
-  p_sets : list (list req)         (* k-th set: requests of the BySet k phase, in some order *)
+  p_sets : list (list req);        (* k-th sequence: requests of the PFixed k phase, in order *)
+  p_idsel : list (list nat)        (* k-th selection: entity ids the PIdSet k phase asks for *)
 }.
-
-Inductive phase := ByFile (k : nat) | BySet (k : nat).
 
 Definition seg (k : nat) (f : pfile) : list req := nth k (f_segs f) [].
 
-Definition phase_reqs (enum : list pfile) (sets : list (list req)) (ph : phase) : list req :=
+Inductive phase := PFile (k : nat) | PIdSet (k : nat) | PFixed (k : nat).
+
+Definition phase_reqs (enum : list pfile) (fixed idt : list (list req)) (ph : phase) : list req :=
   match ph with
-  | ByFile k => flat_map (seg k) enum
-  | BySet k => nth k sets []
+  | PFile k => flat_map (seg k) enum
+  | PIdSet k => nth k idt []
+  | PFixed k => nth k fixed []
   end.
 
 (* the twelve project-level lists Documentation.__init__ walks, in its order:
@@ -68,35 +86,54 @@ Definition phase_reqs (enum : list pfile) (sets : list (list req)) (ph : phase) 
 Definition n_page_lists : nat := 12.
 
 Definition pipeline : list phase :=
-  [ ByFile 0                       (* Project.__init__: for filename in find_all_files(...) *)
-  ; BySet 0                        (* correlate: toposort_flatten(deplist): sorted(set of modules) *)
-  ; BySet 1                        (* ranklist loop, module/submodule part: container.correlate *)
-  ; ByFile 1; ByFile 2; ByFile 3   (* ranklist loop: top-level procedures, programs, block data *)
-  ; BySet 2                        (* prune loop, module/submodule part *)
-  ; ByFile 4; ByFile 5; ByFile 6   (* prune loop: top-level procedures, programs, block data *)
-  ; BySet 3                        (* rest of correlate and of main before markdown *)
-  ; ByFile 7; ByFile 8 ]           (* Project.markdown: project.files, project.extra_files *)
-  ++ map ByFile (seq 9 n_page_lists)    (* Documentation.__init__: page objects (outfile -> ident) *)
-  ++ [ BySet 4                     (* graphs: register, graph_all *)
-     ; BySet 5 ]                   (* search index: the index page *)
-  ++ map ByFile (seq 21 n_page_lists)   (* search index: page.html of every entity page *)
-  ++ [ BySet 6 ]                   (* search index: static pages; writeout: graph files *)
-  ++ map ByFile (seq 33 n_page_lists)   (* writeout: page.html of every entity page *)
-  ++ [ BySet 7 ].                  (* writeout: list pages, static pages, index, search page *)
+  [ PFile 0                        (* Project.__init__: for filename in sorted(find_all_files(...)) *)
+  ; PFile 45; PFile 46             (* correlate: for module in chain(self.modules, self.submodules): module.ident *)
+  ; PIdSet 0                       (* correlate: toposort_flatten(deplist): sorted(set of modules) *)
+  ; PFixed 1                       (* ranklist loop, module/submodule part: container.correlate *)
+  ; PFile 1; PFile 2; PFile 3      (* ranklist loop: top-level procedures, programs, block data *)
+  ; PFixed 2                       (* prune loop, module/submodule part *)
+  ; PFile 4; PFile 5; PFile 6      (* prune loop: top-level procedures, programs, block data *)
+  ; PFixed 3                       (* rest of correlate and of main before markdown *)
+  ; PFile 7; PFile 8 ]             (* Project.markdown: project.files, project.extra_files *)
+  ++ map PFile (seq 9 n_page_lists)     (* Documentation.__init__: page objects (outfile -> ident) *)
+  ++ [ PIdSet 1                    (* graphs: register, graph_all (nodes are created while sets are walked) *)
+     ; PFixed 5 ]                  (* search index: the index page *)
+  ++ map PFile (seq 21 n_page_lists)    (* search index: page.html of every entity page *)
+  ++ [ PFixed 6 ]                  (* search index: static pages; writeout: graph files *)
+  ++ map PFile (seq 33 n_page_lists)    (* writeout: page.html of every entity page *)
+  ++ [ PFixed 7 ].                 (* writeout: list pages, static pages, index, search page *)
 
-Definition registration_of (pl : list phase) (enum : list pfile) (sets : list (list req)) : list req :=
-  flat_map (phase_reqs enum sets) pl.
+Definition registration_of (pl : list phase) (enum : list pfile) (fixed idt : list (list req))
+  : list req :=
+  flat_map (phase_reqs enum fixed idt) pl.
 
 Definition registration := registration_of pipeline.
 
-Definition final_state (enum : list pfile) (sets : list (list req)) : nstate :=
-  fst (run init (registration enum sets)).
+Definition final_state (enum : list pfile) (fixed idt : list (list req)) : nstate :=
+  fst (run init (registration enum fixed idt)).
 
 (* the identifier an entity ends up with (None: never requested) *)
 Definition ident_in (st : nstate) (id : nat) : option str :=
   option_map ident_of (find_item id (items st)).
 
-(* the set phases under the permutations [sigma] *)
+(* what the by-file phases before the (first) PIdSet k phase have requested *)
+Fixpoint seen_before (pl : list phase) (enum : list pfile) (k : nat) (acc : list req) : list req :=
+  match pl with
+  | [] => acc
+  | PFile j :: pl' => seen_before pl' enum k (acc ++ flat_map (seg j) enum)
+  | PIdSet j :: pl' => if Nat.eqb j k then acc else seen_before pl' enum k acc
+  | PFixed _ :: pl' => seen_before pl' enum k acc
+  end.
+
+Definition memb (x : nat) (l : list nat) : bool := existsb (Nat.eqb x) l.
+
+(* the requests of the id-set phases, in some canonical order: the selected entities among what
+   has been requested before *)
+Definition idsel_of (pl : list phase) (enum : list pfile) (sel : list (list nat)) : list (list req) :=
+  map (fun k => filter (fun r => memb (r_id r) (nth k sel [])) (seen_before pl enum k []))
+      (seq 0 (length sel)).
+
+(* lists under the permutations [sigma] *)
 Definition enum_sets (sets : list (list req)) (sigma : list (list nat)) : list (list req) :=
   map (fun lp => enumerate (fst lp) (snd lp)) (combine sets sigma).
 
@@ -104,7 +141,7 @@ Definition perms_ok (sets : list (list req)) (sigma : list (list nat)) : Prop :=
   Forall2 (fun l pi => is_perm pi (length l)) sets sigma.
 
 (* every request of the project, and its entities in an order that does not depend on any
-   enumeration order *)
+   enumeration order (the id-set phases only repeat requests of the files) *)
 Definition file_reqs (f : pfile) : list req := concat (f_segs f).
 Definition all_reqs (P : project) : list req := flat_map file_reqs (p_files P) ++ concat (p_sets P).
 Definition ent_ids (P : project) : list nat := nodup Nat.eq_dec (map r_id (all_reqs P)).
@@ -113,32 +150,42 @@ Definition ent_ids (P : project) : list nat := nodup Nat.eq_dec (map r_id (all_r
    components *)
 Definition file_leb (a b : pfile) : bool := path_leb (f_path a) (f_path b).
 
+Definition idents_enum (P : project) (enum : list pfile) (fixed idt : list (list req))
+  : list (nat * option str) :=
+  let st := final_state enum fixed idt in map (fun id => (id, ident_in st id)) (ent_ids P).
+
+Definition sorted_enum (P : project) (pi : list nat) : list pfile :=
+  isort file_leb (enumerate (p_files P) pi).
+
+Definition idsel (P : project) (pi : list nat) : list (list req) :=
+  idsel_of pipeline (sorted_enum P pi) (p_idsel P).
+
 (* THE function of (files, pi, sigma): the identifier of every entity.  pi is the iteration order
-   of the set find_all_files returns; Project.__init__ sorts it before parsing. *)
-Definition idents_enum (P : project) (enum : list pfile) (sets : list (list req))
+   of the set find_all_files returns (Project.__init__ sorts it before parsing), sigma the
+   iteration orders of the sets of objects hashed by id. *)
+Definition idents (P : project) (pi : list nat) (sigma : list (list nat)) (fixed : list (list req))
   : list (nat * option str) :=
-  let st := final_state enum sets in map (fun id => (id, ident_in st id)) (ent_ids P).
+  idents_enum P (sorted_enum P pi) fixed (enum_sets (idsel P pi) sigma).
 
-Definition idents (P : project) (pi : list nat) (sigma : list (list nat)) : list (nat * option str) :=
-  idents_enum P (isort file_leb (enumerate (p_files P) pi)) (enum_sets (p_sets P) sigma).
+(* the fixed phases of a run: the project's sequences, up to the order among different keys *)
+Definition name_key (r : req) : str * str := (r_dir r, final_name (r_name r)).
+Definition has_key (K : str * str) (r : req) : bool := key_eqb (name_key r) K.
+Definition key_equiv (a b : list req) : Prop := forall K, filter (has_key K) a = filter (has_key K) b.
+Definition fixed_ok (P : project) (fixed : list (list req)) : Prop := Forall2 key_equiv fixed (p_sets P).
 
-(* the pipeline before 80d6c91 (the set was iterated as it came): kept to state what the fix repaired *)
-Definition idents_unsorted (P : project) (pi : list nat) (sigma : list (list nat))
-  : list (nat * option str) :=
-  idents_enum P (enumerate (p_files P) pi) (enum_sets (p_sets P) sigma).
+Definition sigma_ok (P : project) (pi : list nat) (sigma : list (list nat)) : Prop :=
+  perms_ok (idsel P pi) sigma.
 
 (* the same project somewhere else: every path gains the prefix [root] *)
 Definition relocate_file (root : list str) (f : pfile) : pfile :=
   {| f_path := root ++ f_path f; f_segs := f_segs f |}.
 Definition relocate (root : list str) (P : project) : project :=
-  {| p_files := map (relocate_file root) (p_files P); p_sets := p_sets P |}.
+  {| p_files := map (relocate_file root) (p_files P); p_sets := p_sets P; p_idsel := p_idsel P |}.
 
 (* ------------------------------------------------------------------ clashes *)
 
 Definition req_eqb (a b : req) : bool :=
   Nat.eqb (r_id a) (r_id b) && str_eqb (r_dir a) (r_dir b) && str_eqb (r_name a) (r_name b).
-
-Definition name_key (r : req) : str * str := (r_dir r, final_name (r_name r)).
 
 (* two requests are compatible: same entity -> same request; different entities -> they do not
    compete for one counter of the NameSelector *)
@@ -146,25 +193,23 @@ Definition pair_ok (a b : req) : bool :=
   if Nat.eqb (r_id a) (r_id b) then req_eqb a b else negb (key_eqb (name_key a) (name_key b)).
 
 Definition no_clash_list (rs : list req) : bool := forallb (fun a => forallb (pair_ok a) rs) rs.
-Definition no_clashb (P : project) : bool := no_clash_list (all_reqs P).
 
-(* one request per entity: equal ids, equal requests *)
+(* well-formedness of a project: one request per entity (equal ids, equal requests) *)
 Definition consistentb (P : project) : bool :=
   forallb (fun a => forallb (fun b => if Nat.eqb (r_id a) (r_id b) then req_eqb a b else true) (all_reqs P))
           (all_reqs P).
 
-(* the region of the partial theorem: no entity that is requested in a set-ordered phase competes
-   with another entity for a NameSelector counter (e.g. no two modules of one name) *)
-Definition sets_isolatedb (P : project) : bool :=
-  forallb (fun sr => forallb (fun r => if key_eqb (name_key r) (name_key sr)
-                                     then Nat.eqb (r_id r) (r_id sr) else true) (all_reqs P))
-          (concat (p_sets P)).
-
 (* ------------------------------------------------------------------ other sets that reach the output *)
 
-(* FortranCodeUnit.correlate: self.uses = set([m[0] for m in self.uses]); the page template
-   walks it: the "Uses" list appears in set order *)
-Definition shown_uses (uses : list str) (pi : list nat) : list str := enumerate uses pi.
+(* FortranCodeUnit.correlate: self.uses = set([m[0] for m in self.uses]); the page template walks
+   "obj.uses | sort_by_name": sorted(entities, key = (name.lower(), name)) *)
+Definition use_leb (a b : str) : bool := path_leb [lower a; a] [lower b; b].
+
+Definition shown_uses (uses : list str) (pi : list nat) : list str :=
+  isort use_leb (enumerate uses pi).
+
+(* before the "Uses" repair: in set order *)
+Definition shown_uses_unsorted (uses : list str) (pi : list nat) : list str := enumerate uses pi.
 
 (* FortranGraph.add_to_graph / __init__: "for n in sorted(nodes): self.dot.node(n.ident, ...)";
    BaseNode.__lt__ compares identifiers, BaseNode.__eq__/__hash__ make a set hold one node per
@@ -181,6 +226,58 @@ Definition emit_child_edges (parent : str) (children : list str) (pi : list nat)
 Definition emit_child_edges_unsorted (parent : str) (children : list str) (pi : list nat)
   : list (str * str) :=
   map (fun c => (c, parent)) (enumerate children pi).
+
+(* FortranGraph._make_graph_as_table (the HTML table shown instead of a graph whose first hop
+   exceeds graph_maxnodes): the edges of the hop were appended neighbour by neighbour, the
+   neighbours walked in sorted (identifier) order by add_node; the rows are
+   "self.hop_edges.sort(key=label.lower())", a stable sort.  A neighbour is (identifier, label). *)
+Definition ident_leb (a b : str * str) : bool := str_leb (fst a) (fst b).
+Definition label_leb (a b : str * str) : bool := str_leb (lower (snd a)) (lower (snd b)).
+
+Definition emit_table_rows (neighbours : list (str * str)) (pi : list nat) : list (str * str) :=
+  isort label_leb (isort ident_leb (enumerate neighbours pi)).
+
+(* what the code does NOT do: sort the set of neighbours by label directly (equal labels would
+   come out in set order) *)
+Definition emit_table_rows_from_set (neighbours : list (str * str)) (pi : list nat) : list (str * str) :=
+  isort label_leb (enumerate neighbours pi).
+
+(* ------------------------------------------------------------------ before the repairs *)
+
+(* a set-ordered loop that may ask for anything, in any order: the toposort before the repair
+   (and, in the same model, every loop whose order was not examined) *)
+Inductive phase0 := ByFile (k : nat) | BySet (k : nat).
+
+Definition phase0_reqs (enum : list pfile) (sets : list (list req)) (ph : phase0) : list req :=
+  match ph with
+  | ByFile k => flat_map (seg k) enum
+  | BySet k => nth k sets []
+  end.
+
+Definition pipeline0 : list phase0 :=
+  [ ByFile 0; BySet 0; BySet 1; ByFile 1; ByFile 2; ByFile 3; BySet 2; ByFile 4; ByFile 5; ByFile 6
+  ; BySet 3; ByFile 7; ByFile 8 ]
+  ++ map ByFile (seq 9 n_page_lists) ++ [ BySet 4; BySet 5 ]
+  ++ map ByFile (seq 21 n_page_lists) ++ [ BySet 6 ]
+  ++ map ByFile (seq 33 n_page_lists) ++ [ BySet 7 ].
+
+Definition registration0_of (pl : list phase0) (enum : list pfile) (sets : list (list req)) : list req :=
+  flat_map (phase0_reqs enum sets) pl.
+
+Definition idents0_enum (P : project) (enum : list pfile) (sets : list (list req))
+  : list (nat * option str) :=
+  let st := fst (run init (registration0_of pipeline0 enum sets)) in
+  map (fun id => (id, ident_in st id)) (ent_ids P).
+
+(* before the toposort repair (files already sorted): p_sets are free sets, permuted by sigma *)
+Definition idents_free_sets (P : project) (pi : list nat) (sigma : list (list nat))
+  : list (nat * option str) :=
+  idents0_enum P (sorted_enum P pi) (enum_sets (p_sets P) sigma).
+
+(* before 80d6c91: the set of files was iterated as it came *)
+Definition idents_unsorted (P : project) (pi : list nat) (sigma : list (list nat))
+  : list (nat * option str) :=
+  idents0_enum P (enumerate (p_files P) pi) (enum_sets (p_sets P) sigma).
 
 (* ------------------------------------------------------------------ writeout *)
 
